@@ -61,6 +61,30 @@ def oracle(policy, actions, recs, snap):
                 bad.append(('c10:completed-not-first',
                             f'completed={completed} but {earlier} finished earlier, count, and '
                             f'were not consumed by the caller (log {log})'))
+    # ... and is there at all: a member that had already finished when join()/__aexit__ was
+    # called (or was handed over, finished, by that very call), counts under the policy and was
+    # not consumed by a next_done caller is in front of the join loop, so after a join that
+    # returned normally `completed` names a member (policy None waits for nobody and looks at
+    # nobody)
+    if last['joined'] and completed is None and policy != 'none' \
+            and not any(a[0] == 'K' for a in actions):
+        early = [m for m in log if m not in yielded and counts(policy, outcome.get(m))
+                 and (any(m == i for i, _oc in TG.adds_of(actions[started]))
+                      or (started > 0 and m in recs[started - 1]['done']))]
+        if early:
+            bad.append(('c10:completed-missing',
+                        f'policy {policy}: join returned but completed is None although members '
+                        f'{early} had finished before it started (log {log}, consumed {yielded})'))
+    # next_done() returns None only when the group holds no finished and no pending member: a
+    # caller that hands over already finished tasks with the same call, alone (no other caller,
+    # no join yet), gets one of them
+    for idx, (a, rec) in enumerate(zip(actions, recs)):
+        if a[0] == 'N' and TG.adds_of(a) and (started is None or idx < started) \
+                and not any(b[0] == 'N' for b in actions[:idx]):
+            if f'nd{a[1]}=N' in rec['obs']:
+                bad.append(('c10:next-done-none-with-finished-member',
+                            f'step {idx} {a}: next_done() returned None although the finished '
+                            f'tasks {[i for i, _ in TG.adds_of(a)]} had just been added'))
     # result / exception properties describe `completed`
     if last['joined']:
         if completed is None:
